@@ -11,6 +11,7 @@ class Stub:
     def __init__(self, index, fitness, origin=None):
         self.index, self.fitness, self.origin = index, list(fitness), origin if origin is not None else index
         self.cloned = 0
+        self.accelerator = None
 
     def clone(self, index=None, wrap=True):
         self.cloned += 1
@@ -41,6 +42,9 @@ def _case(pop_fit, indices, tsize, elitism, psize, evl, seed):
         return f"new population has {len(new)} members, configured size {psize}"
     if elitism and (new[0].origin != elite.origin or new[0].fitness != elite.fitness):
         return "with elitism the first member is not the elite"
+    objs = [elite] + list(new) + list(pop)
+    if len({id(o) for o in objs}) != len(objs) or len({id(o.fitness) for o in objs}) != len(objs):
+        return "the returned elite, the new members and the old population are not pairwise distinct objects (shared mutable state)"
     off = 1 if elitism else 0
     if len(draws) != psize - off:
         return f"{len(draws)} tournaments for {psize - off} members"
